@@ -51,7 +51,7 @@ CLAIMED["C11"] = (
     "checks the code-shaped bound handling against that definition over every bound combination and that the A1 text of a position "
     "parses back to it. All bounded histories with row/column arguments from -1 to limit+1 are replayed twice (RC and A1 text incl. 'A0'), "
     "must coincide event by event, and each recorded trace incl. ~100-1300 read-only probes is validated by TLC; concrete limit rows/columns "
-    "(MAX-1, MAX, MAX+1) are validated with the real limits as spec constants. Each history runs in three notations: row/column numbers, 'B2', and lower case or every '$' placement (a lower-case spelling may be refused without effect or read like the upper-case one).",
+    "(rows MAX, MAX+1 and -1, -2 - all refused; columns MAX-1, MAX, MAX+1) are validated with the real limits as spec constants; growth to the last row is C01's thorough case. Each history runs in three notations: row/column numbers, 'B2', and lower case or every '$' placement (a lower-case spelling may be refused without effect or read like the upper-case one).",
     "TLC/SANY; abstract limits 4 are mapped to MAX_ROW_COUNT/MAX_COL_COUNT; lower-case A1 not judged; the local effect of a touch (style "
     "name, border, formatted value at the addressed cell, no other cell changed) is observed by the driver and judged as a logged field",
     "DESIGN.md §4 C11")
